@@ -5,10 +5,13 @@ import (
 	"context"
 	"encoding/json"
 	"fmt"
+	"io"
 	"os"
 	"os/exec"
+	"path/filepath"
 	"reflect"
 	"runtime"
+	"sort"
 	"strings"
 	"sync"
 	"time"
@@ -18,7 +21,8 @@ import (
 
 // C07: rendering is a pure, deterministic function of template and data.
 //
-// One case = template files + the template to render + data + a history of other renders.
+// One case = template files + the template to render + data + a history of other renders +
+// sibling templates that are never rendered.
 // Every case runs in processes of its own (runner C07 re-executes this binary as C07one), so
 // that whatever a render may leave behind - in an engine, in package-level variables, in pools
 // or caches - can only come from the case's own history and a replay of the case is
@@ -26,11 +30,22 @@ import (
 // Mode "full" (one process): r0 = the first render of the process' life, r1 = again on the
 // same engine, r2 = on a second engine instance, then the history (other templates, or the same
 // template with other data, each on any of three engine instances), r3 = on the third engine,
-// r4 = with freshly built equal data on the first engine, r5 = on an engine created only now;
-// afterwards the caller's data is deep-compared (reflect.DeepEqual) with a pristine copy built
-// independently from the same description.
+// r4 = with freshly built equal data on the first engine, r5 = on an engine created only now,
+// r6 = on an engine whose template directory holds the rendered template ALONE, r7 = on an engine
+// over the same files and siblings listed in the other directory order; afterwards the caller's
+// data is deep-compared (reflect.DeepEqual) with a pristine copy built independently from the
+// same description.
+// What a render returns is an io.Reader: its bytes are what the caller READS, whenever it reads.
+// r0..r7 are read at once.  Further renders (one right after r0, any render of the history, the
+// renders of the late phase after r7) are KEPT: the reader stays unread (or is read only in
+// part) while the process goes on rendering - the same pair, other data, other templates, on the
+// same and on other engines - and is read when all renders are over, oldest first, newest first,
+// in a permuted order, or a few bytes at a time round-robin.  Kept renders of the pair are
+// reported next to r0..r7; every other kept render is repeated at the end (equal data, read at
+// once) and reported as a pair of outputs that must be equal.
 // Mode "single": exactly one render in a process of its own (own map hash seeds, nothing
-// rendered before); the parent starts `fresh` of them per case.
+// rendered before) over one of the three directory layouts; the parent starts `fresh` of them
+// per case.
 
 // data built from Go slices / maps / pointers / structs
 type c07Rec struct {
@@ -193,45 +208,316 @@ func buildData07(raw json.RawMessage) (interface{}, error) {
 	return nil, fmt.Errorf("bad data tag %q", tv.T)
 }
 
+// one render of the history / of the late phase
 type c07Req struct {
 	Render string          `json:"render"`
 	Data   json.RawMessage `json:"data"`
-	On     int             `json:"on"` // which of the process's engine instances runs this history render
+	Pair   bool            `json:"pair"` // the case's own (template, data) pair: Render / Data are ignored
+	On     int             `json:"on"`   // which of the process's engine instances runs this render
+	// what the caller does with the io.Reader that Render returns:
+	// 0 = read it to the end at once; 1 = keep it unread while the process goes on rendering and read it when
+	// everything else is done; 2 = read the first Pre bytes at once and the rest when everything else is done
+	Hold int `json:"hold"`
+	Pre  int `json:"pre"`
 }
 
 type c07Case struct {
-	Files  map[string]string `json:"files"`
-	Render string            `json:"render"`
-	Data   json.RawMessage   `json:"data"`
-	Prefix []c07Req          `json:"prefix"`
-	Single bool              `json:"single"`
-	Fresh  int               `json:"fresh"` // parent only: number of additional processes that render the pair exactly once
+	Files    map[string]string `json:"files"`    // rendered template + the templates of the history (hex name -> hex AST)
+	Siblings map[string]string `json:"siblings"` // templates that are never rendered (hex relative path, may contain directories)
+	Render   string            `json:"render"`
+	Data     json.RawMessage   `json:"data"`
+	Prefix   []c07Req          `json:"prefix"`
+	Late     []c07Req          `json:"late"`       // renders after r7, most of them kept unread
+	HoldR0   bool              `json:"hold_first"` // one more render of the pair right after r0, read last of all
+	ReadSeed int               `json:"read_seed"`  // order in which the kept readers are read: 0 oldest first, 1 newest first, else a permutation
+	ReadStep int               `json:"read_step"`  // > 0: the kept readers are read round-robin, ReadStep bytes at a time
+	TFirst   bool              `json:"t_first"`    // main layout: the rendered template is listed before its siblings (the other layout: after)
+	Single   bool              `json:"single"`
+	Layout   int               `json:"layout"` // single mode: 0 main layout, 1 rendered template alone, 2 the other listing order
+	Fresh    int               `json:"fresh"`  // parent only: number of additional processes that render the pair exactly once
+}
+
+// where the rendered template stands in the directory listings compileDir works through
+type c07Listing struct {
+	Entries    int  `json:"entries"` // sibling entries compared with the rendered template's entry
+	TBeforeAll bool `json:"t_before_all"`
+	TAfterAll  bool `json:"t_after_all"`
 }
 
 type c07Obs struct {
-	Load            string         `json:"load"`
-	R               []renderResult `json:"r"`
-	Untouched       bool           `json:"untouched"`        // caller's data deep-equals the pristine copy after all renders
-	PrefixUntouched bool           `json:"prefix_untouched"` // same for the data of the history renders
-	Fresh           []renderResult `json:"fresh"`            // parent only: the single render of each additional process
-	FreshUntouched  bool           `json:"fresh_untouched"`
-	Msg             string         `json:"msg,omitempty"`
+	Load            string            `json:"load"`
+	R               []renderResult    `json:"r"`
+	Held            []renderResult    `json:"held"`             // renders of the pair whose reader was kept unread, in the order of the renders
+	Pairs           [][2]renderResult `json:"pairs"`            // other renders kept unread: [what was read at the end, the same render again read at once]
+	Untouched       bool              `json:"untouched"`        // caller's data deep-equals the pristine copy after all renders
+	PrefixUntouched bool              `json:"prefix_untouched"` // same for the data of the history renders
+	Fresh           []renderResult    `json:"fresh"`            // parent only: the single render of each additional process
+	FreshUntouched  bool              `json:"fresh_untouched"`
+	Main            c07Listing        `json:"main"`
+	Other           c07Listing        `json:"other"`
+	Msg             string            `json:"msg,omitempty"`
+}
+
+// ---- directory layouts ------------------------------------------------------------------------
+// compileDir works through os.File.Readdir(-1): the order is the file system's (hash of the names on
+// ext4, creation order on tmpfs, ...).  A layout is written so that the rendered template's entry is
+// listed before (tFirst) or after every sibling's entry: the files are created in the order that does it
+// on creation-ordered file systems, then each sibling entry that is still on the wrong side is renamed
+// (a sibling is never rendered: its name means nothing) until it is listed where it should be.
+
+func c07ReadNames(dir string) ([]string, error) {
+	f, err := os.Open(dir)
+	if err != nil {
+		return nil, err
+	}
+	defer f.Close()
+	infos, err := f.Readdir(-1) // the call compileDir makes
+	if err != nil {
+		return nil, err
+	}
+	names := make([]string, len(infos))
+	for i, fi := range infos {
+		names[i] = fi.Name()
+	}
+	return names, nil
+}
+
+func c07Index(names []string, n string) int {
+	for i, x := range names {
+		if x == n {
+			return i
+		}
+	}
+	return -1
+}
+
+// entry of path p (template name without suffix) in the directory at depth i of its path
+func c07Entry(parts []string, i int) string {
+	if i == len(parts)-1 {
+		return parts[i] + ".ast.json"
+	}
+	return parts[i]
+}
+
+func c07WriteLayout(dir string, files map[string]string, sibs map[string]string, tname string, tFirst bool) (c07Listing, error) {
+	var ls c07Listing
+	page := filepath.Join(dir, "template", "page")
+	write := func(name, content string) error {
+		return writeTree(dir, map[string]string{"template/page/" + name + ".ast.json": content})
+	}
+	names := make([]string, 0, len(files))
+	for n := range files {
+		if n != tname {
+			names = append(names, n)
+		}
+	}
+	sort.Strings(names)
+	snames := make([]string, 0, len(sibs))
+	for n := range sibs {
+		snames = append(snames, n)
+	}
+	sort.Strings(snames)
+	if err := os.MkdirAll(page, 0o755); err != nil {
+		return ls, err
+	}
+	tcontent, ok := files[tname]
+	if !ok {
+		return ls, fmt.Errorf("rendered template %q is not among the files", tname)
+	}
+	if !tFirst { // creation-ordered listings show the newest entry first
+		if err := write(tname, tcontent); err != nil {
+			return ls, err
+		}
+	}
+	for _, n := range names {
+		if err := write(n, files[n]); err != nil {
+			return ls, err
+		}
+	}
+	for _, n := range snames {
+		if err := write(n, sibs[n]); err != nil {
+			return ls, err
+		}
+	}
+	if tFirst {
+		if err := write(tname, tcontent); err != nil {
+			return ls, err
+		}
+	}
+	// the entries to compare: for every sibling the first path component in which it differs from the
+	// rendered template, in their common parent directory
+	tparts := strings.Split(tname, "/")
+	type ent struct {
+		parent, name string
+		depth        int
+	}
+	seen := map[ent]bool{}
+	var ents []ent
+	for _, n := range snames {
+		sparts := strings.Split(n, "/")
+		i := 0
+		for i < len(sparts)-1 && i < len(tparts)-1 && sparts[i] == tparts[i] {
+			i++
+		}
+		te, se := c07Entry(tparts, i), c07Entry(sparts, i)
+		if te == se {
+			return ls, fmt.Errorf("sibling %q collides with the rendered template", n)
+		}
+		e := ent{filepath.Join(append([]string{page}, sparts[:i]...)...), se, i}
+		if !seen[e] {
+			seen[e] = true
+			ents = append(ents, e)
+		}
+	}
+	ls.Entries = len(ents)
+	ls.TBeforeAll, ls.TAfterAll = true, true
+	for _, e := range ents {
+		te := c07Entry(tparts, e.depth)
+		cur := e.name
+		good := false
+		for try := 0; try < 24; try++ {
+			l, err := c07ReadNames(e.parent)
+			if err != nil {
+				return ls, err
+			}
+			ti, si := c07Index(l, te), c07Index(l, cur)
+			if ti < 0 || si < 0 {
+				return ls, fmt.Errorf("layout: entry %q or %q is not listed in %s", te, cur, e.parent)
+			}
+			if (ti < si) == tFirst {
+				good = true
+				break
+			}
+			var next string
+			if strings.HasSuffix(e.name, ".ast.json") {
+				next = fmt.Sprintf("%s_%d.ast.json", strings.TrimSuffix(e.name, ".ast.json"), try)
+			} else {
+				next = fmt.Sprintf("%s_%d", e.name, try)
+			}
+			if err := os.Rename(filepath.Join(e.parent, cur), filepath.Join(e.parent, next)); err != nil {
+				return ls, err
+			}
+			cur = next
+		}
+		if !good || !tFirst {
+			ls.TBeforeAll = false
+		}
+		if !good || tFirst {
+			ls.TAfterAll = false
+		}
+	}
+	return ls, nil
+}
+
+// ---- results that are read later ----------------------------------------------------------------
+
+type c07Kept struct {
+	rd   io.Reader
+	got  []byte
+	done bool
+	res  renderResult // class of the render (and, when done, what was read)
+	pair bool
+	req  c07Req
+	eng  int
+}
+
+// c07RenderKeep calls Engine.Render and does NOT read the result (but the first pre bytes, if pre > 0).
+func c07RenderKeep(e *pugjs.Engine, ctx context.Context, name string, data interface{}, pre int) (k *c07Kept) {
+	k = &c07Kept{}
+	defer func() {
+		if r := recover(); r != nil {
+			k.rd, k.done, k.res = nil, true, renderResult{Class: clsPanic, Err: fmt.Sprint(r)}
+		}
+	}()
+	rd, err := e.Render(ctx, name, data)
+	if err != nil {
+		k.done, k.res = true, renderResult{Class: classifyErr(err), Err: err.Error()}
+		return k
+	}
+	k.rd, k.res = rd, renderResult{Class: clsOK}
+	if pre > 0 {
+		k.read(pre)
+	}
+	return k
+}
+
+// read takes up to n more bytes from the kept reader (n <= 0: all that is left).
+func (k *c07Kept) read(n int) {
+	if k.done {
+		return
+	}
+	if n <= 0 {
+		b, _ := io.ReadAll(k.rd)
+		k.got = append(k.got, b...)
+		k.done = true
+	} else {
+		buf := make([]byte, n)
+		m, err := io.ReadFull(k.rd, buf)
+		k.got = append(k.got, buf[:m]...)
+		if err != nil {
+			k.done = true
+		}
+	}
+	if k.done {
+		k.res.Out = hx(string(k.got))
+	}
+}
+
+// c07Order: the order in which the kept readers are read (deterministic in seed).
+func c07Order(n, seed int) []int {
+	o := make([]int, n)
+	for i := range o {
+		o[i] = i
+	}
+	switch seed {
+	case 0:
+	case 1:
+		for i, j := 0, n-1; i < j; i, j = i+1, j-1 {
+			o[i], o[j] = o[j], o[i]
+		}
+	default:
+		x := uint64(seed)*6364136223846793005 + 1442695040888963407
+		for i := n - 1; i > 0; i-- {
+			x = x*6364136223846793005 + 1442695040888963407
+			j := int((x >> 33) % uint64(i+1))
+			o[i], o[j] = o[j], o[i]
+		}
+	}
+	return o
 }
 
 // runC07 runs ONE case in this process.  The process has rendered nothing before:
 // r[0] is the first render of the process' life.
 func runC07(c c07Case) (obs c07Obs, err error) {
-	dir, err := os.MkdirTemp("", "pv07")
+	root, err := os.MkdirTemp("", "pv07")
 	if err != nil {
 		return obs, err
 	}
-	defer os.RemoveAll(dir)
+	defer os.RemoveAll(root)
 	files := map[string]string{}
 	for p, a := range c.Files {
-		files["template/page/"+unhx(p)+".ast.json"] = unhx(a)
+		files[unhx(p)] = unhx(a)
 	}
-	if err := writeTree(dir, files); err != nil {
-		return obs, err
+	sibs := map[string]string{}
+	for p, a := range c.Siblings {
+		sibs[unhx(p)] = unhx(a)
+	}
+	name := unhx(c.Render)
+	dir, dirAlone, dirOther := filepath.Join(root, "main"), filepath.Join(root, "alone"), filepath.Join(root, "other")
+	if !c.Single || c.Layout == 0 {
+		if obs.Main, err = c07WriteLayout(dir, files, sibs, name, c.TFirst); err != nil {
+			return obs, err
+		}
+	}
+	if !c.Single || c.Layout == 1 {
+		if _, err = c07WriteLayout(dirAlone, map[string]string{name: files[name]}, nil, name, true); err != nil {
+			return obs, err
+		}
+	}
+	if !c.Single || c.Layout == 2 {
+		if obs.Other, err = c07WriteLayout(dirOther, files, sibs, name, !c.TFirst); err != nil {
+			return obs, err
+		}
 	}
 	data, err := buildData07(c.Data)
 	if err != nil {
@@ -244,10 +530,15 @@ func runC07(c c07Case) (obs c07Obs, err error) {
 	if !reflect.DeepEqual(data, pristine) {
 		return obs, fmt.Errorf("data description does not build reproducibly")
 	}
-	name := unhx(c.Render)
 	ctx := context.Background()
 
-	e1 := newEngine(dir, false, 0, nil)
+	first := dir
+	if c.Single && c.Layout == 1 {
+		first = dirAlone
+	} else if c.Single && c.Layout == 2 {
+		first = dirOther
+	}
+	e1 := newEngine(first, false, 0, nil)
 	obs.Load, obs.Msg = safeLoad(e1, "")
 	if obs.Load != clsOK {
 		return obs, nil
@@ -256,35 +547,83 @@ func runC07(c c07Case) (obs c07Obs, err error) {
 	obs.Untouched = reflect.DeepEqual(data, pristine)
 	obs.PrefixUntouched = true
 	obs.FreshUntouched = true
+	obs.Held = []renderResult{}
+	obs.Pairs = [][2]renderResult{}
 	if c.Single {
 		return obs, nil
 	}
+	var kept []*c07Kept
+	type slot struct {
+		k *c07Kept
+		r renderResult
+	}
+	var pairSlots []slot // one per additional render of the pair, in the order of the renders
+	if c.HoldR0 {
+		// the second render of the process: its reader stays unread until everything else is over
+		k := c07RenderKeep(e1, ctx, name, data, 0)
+		k.pair = true
+		kept = append(kept, k)
+		pairSlots = append(pairSlots, slot{k: k})
+	}
 	obs.R = append(obs.R, safeRender(e1, ctx, name, data)) // r1: again, same engine, same data value
 
+	mk := func(d string, what string) (*pugjs.Engine, error) {
+		e := newEngine(d, false, 0, nil)
+		if cls, msg := safeLoad(e, ""); cls != clsOK {
+			return nil, fmt.Errorf("%s does not load what the first engine loaded: %s", what, msg)
+		}
+		return e, nil
+	}
 	engines := []*pugjs.Engine{e1}
 	for i := 2; i <= 3; i++ {
-		e := newEngine(dir, false, 0, nil)
-		if cls, _ := safeLoad(e, ""); cls != clsOK {
-			return obs, fmt.Errorf("engine %d does not load what the first loaded", i)
+		e, err := mk(dir, fmt.Sprintf("engine %d", i))
+		if err != nil {
+			return obs, err
 		}
 		engines = append(engines, e)
 	}
 	obs.R = append(obs.R, safeRender(engines[1], ctx, name, data)) // r2: second engine instance
 
-	// the history: other templates / the same template with other data, on any engine of the process
-	for _, rq := range c.Prefix {
-		d, err := buildData07(rq.Data)
-		if err != nil {
-			return obs, err
-		}
-		p, _ := buildData07(rq.Data)
-		on := rq.On % len(engines)
+	// one render of the history / the late phase
+	var others []interface{} // data of the other renders and their pristine copies
+	step := func(rq c07Req, pool []*pugjs.Engine) error {
+		on := rq.On % len(pool)
 		if on < 0 {
 			on = 0
 		}
-		safeRender(engines[on], ctx, unhx(rq.Render), d)
-		if !reflect.DeepEqual(d, p) {
-			obs.PrefixUntouched = false
+		n, d := name, data
+		if !rq.Pair {
+			var err error
+			if d, err = buildData07(rq.Data); err != nil {
+				return err
+			}
+			p, _ := buildData07(rq.Data)
+			others = append(others, d, p)
+			n = unhx(rq.Render)
+		}
+		if rq.Hold == 0 {
+			r := safeRender(pool[on], ctx, n, d)
+			if rq.Pair {
+				pairSlots = append(pairSlots, slot{r: r}) // (a render of the pair that is read at once)
+			}
+			return nil
+		}
+		pre := 0
+		if rq.Hold == 2 && rq.Pre > 0 {
+			pre = rq.Pre
+		}
+		k := c07RenderKeep(pool[on], ctx, n, d, pre)
+		k.pair, k.req, k.eng = rq.Pair, rq, on
+		kept = append(kept, k)
+		if rq.Pair {
+			pairSlots = append(pairSlots, slot{k: k})
+		}
+		return nil
+	}
+	// the history: other templates / the same template with other data, on any engine of the process
+	for _, rq := range c.Prefix {
+		if err := step(rq, engines); err != nil {
+			return obs, err
 		}
 	}
 	obs.R = append(obs.R, safeRender(engines[2], ctx, name, data)) // r3: third engine, after the history
@@ -292,13 +631,99 @@ func runC07(c c07Case) (obs c07Obs, err error) {
 	fresh, _ := buildData07(c.Data)
 	obs.R = append(obs.R, safeRender(e1, ctx, name, fresh))
 	// r5: an engine instance created only now
-	e4 := newEngine(dir, false, 0, nil)
-	if cls, _ := safeLoad(e4, ""); cls != clsOK {
-		return obs, fmt.Errorf("late engine does not load what the first loaded")
+	e4, err := mk(dir, "late engine")
+	if err != nil {
+		return obs, err
 	}
 	obs.R = append(obs.R, safeRender(e4, ctx, name, data))
+	// r6: an engine whose template directory holds the rendered template alone
+	eAlone, err := mk(dirAlone, "engine with the template alone")
+	if err != nil {
+		return obs, err
+	}
+	obs.R = append(obs.R, safeRender(eAlone, ctx, name, data))
+	// r7: an engine over the same files, listed in the other order
+	eOther, err := mk(dirOther, "engine over the other listing order")
+	if err != nil {
+		return obs, err
+	}
+	obs.R = append(obs.R, safeRender(eOther, ctx, name, data))
+
+	// the late phase: renders whose readers are kept, interleaved with renders that are read at once
+	all := append(append([]*pugjs.Engine{}, engines...), e4, eAlone, eOther)
+	for _, rq := range c.Late {
+		if err := step(rq, all); err != nil {
+			return obs, err
+		}
+	}
+	// now read what was kept
+	order := c07Order(len(kept), c.ReadSeed)
+	if c.HoldR0 && len(kept) > 1 { // the second render of the process is read last of all
+		o2 := make([]int, 0, len(order))
+		for _, i := range order {
+			if i != 0 {
+				o2 = append(o2, i)
+			}
+		}
+		order = append(o2, 0)
+	}
+	if c.ReadStep > 0 {
+		for left := true; left; {
+			left = false
+			for _, i := range order {
+				if !kept[i].done {
+					kept[i].read(c.ReadStep)
+					left = left || !kept[i].done
+				}
+			}
+		}
+	} else {
+		for _, i := range order {
+			kept[i].read(0)
+		}
+	}
+	for _, sl := range pairSlots {
+		if sl.k != nil {
+			obs.Held = append(obs.Held, sl.k.res)
+		} else {
+			obs.Held = append(obs.Held, sl.r)
+		}
+	}
+	// every other kept render once more, with freshly built equal data, read at once
+	for _, k := range kept {
+		if k.pair {
+			continue
+		}
+		d, err := buildData07(k.req.Data)
+		if err != nil {
+			return obs, err
+		}
+		obs.Pairs = append(obs.Pairs, [2]renderResult{k.res, safeRender(all[k.eng%len(all)], ctx, unhx(k.req.Render), d)})
+	}
 	obs.Untouched = reflect.DeepEqual(data, pristine) && reflect.DeepEqual(fresh, pristine)
+	for i := 0; i+1 < len(others); i += 2 {
+		if !reflect.DeepEqual(others[i], others[i+1]) {
+			obs.PrefixUntouched = false
+		}
+	}
 	return obs, nil
+}
+
+// c07Counts: how many results a full process reports for the case (needed when the runtime kills it)
+func c07Counts(c c07Case) (held, pairs int) {
+	if c.HoldR0 {
+		held++
+	}
+	for _, l := range [][]c07Req{c.Prefix, c.Late} {
+		for _, rq := range l {
+			if rq.Pair {
+				held++
+			} else if rq.Hold != 0 {
+				pairs++
+			}
+		}
+	}
+	return
 }
 
 // child runs one case in a process of its own (this binary, runner C07one).
@@ -312,6 +737,13 @@ func c07Child(self, tmp string, c c07Case) (obs c07Obs, err error) {
 	cmd := exec.CommandContext(ctx, self, "C07one")
 	cmd.Stdin = bytes.NewReader(in)
 	cmd.Env = append(os.Environ(), "TMPDIR="+tmp) // a child the runtime kills cannot remove its files: the parent does
+	if !c.Single {
+		// the full sequence runs on one P and without garbage collections: what a render leaves in a per-P
+		// cache or in a sync.Pool is then found by the next render every time, not only when the scheduler
+		// and the collector happen to allow it - and a replay of the case sees what the first run saw.
+		// (The single-render processes run with the runtime's defaults.)
+		cmd.Env = append(cmd.Env, "GOMAXPROCS=1", "GOGC=off")
+	}
 	var stderr bytes.Buffer
 	cmd.Stderr = &stderr
 	out, err := cmd.Output()
@@ -323,13 +755,22 @@ func c07Child(self, tmp string, c c07Case) (obs c07Obs, err error) {
 		if _, died := err.(*exec.ExitError); died && !strings.HasPrefix(msg, "harness error:") && !strings.HasPrefix(msg, "bad input:") {
 			// the Go runtime killed the process (stack exhaustion, concurrent map access, ...): nothing a
 			// recover() can catch.  Every render of that process is reported as class "crash".
-			n := 6
+			n, held, pairs := 8, 0, 0
 			if c.Single {
 				n = 1
+			} else {
+				held, pairs = c07Counts(c)
 			}
-			obs = c07Obs{Load: clsOK, Untouched: true, PrefixUntouched: true, FreshUntouched: true, Msg: msg}
+			obs = c07Obs{Load: clsOK, Untouched: true, PrefixUntouched: true, FreshUntouched: true, Msg: msg,
+				Held: []renderResult{}, Pairs: [][2]renderResult{}}
 			for i := 0; i < n; i++ {
 				obs.R = append(obs.R, renderResult{Class: "crash"})
+			}
+			for i := 0; i < held; i++ {
+				obs.Held = append(obs.Held, renderResult{Class: "crash"})
+			}
+			for i := 0; i < pairs; i++ {
+				obs.Pairs = append(obs.Pairs, [2]renderResult{{Class: "crash"}, {Class: "crash"}})
 			}
 			return obs, nil
 		}
@@ -340,7 +781,8 @@ func c07Child(self, tmp string, c c07Case) (obs c07Obs, err error) {
 }
 
 // c07Isolated: one process for the full sequence of the case and c.Fresh more processes that render the
-// pair exactly once - no state of any kind is shared between two cases or between these processes.
+// pair exactly once - over the main layout, over the rendered template alone, over the other listing
+// order, ... in turn; no state of any kind is shared between two cases or between these processes.
 func c07Isolated(self, tmp string, c c07Case) (c07Obs, error) {
 	n := c.Fresh
 	c.Fresh = 0
@@ -353,14 +795,15 @@ func c07Isolated(self, tmp string, c c07Case) (c07Obs, error) {
 	}
 	obs.Fresh = []renderResult{}
 	c.Single = true
-	c.Prefix = nil
+	c.Prefix, c.Late, c.HoldR0 = nil, nil, false
 	for i := 0; i < n; i++ {
+		c.Layout = i % 3
 		o, err := c07Child(self, tmp, c)
 		if err != nil {
 			return obs, err
 		}
 		if o.Load != clsOK || len(o.R) != 1 {
-			return obs, fmt.Errorf("a fresh process does not load what the first loaded")
+			return obs, fmt.Errorf("a fresh process does not load what the first loaded: %s", o.Msg)
 		}
 		obs.Fresh = append(obs.Fresh, o.R[0])
 		obs.FreshUntouched = obs.FreshUntouched && o.Untouched
